@@ -253,6 +253,7 @@ func c09(c *ev.Ctx) {
 		}
 	}
 	c09WorkAfterCancel(c)
+	c09StraightLine(c)
 	// finite scripts under a live context are unaffected
 	for fi, f := range c09Finite {
 		for _, noOpt := range []bool{false, true} {
@@ -395,4 +396,98 @@ func c09WorkAfterCancel(c *ev.Ctx) {
 		}
 	}
 	c.Extra("max_bytes_allocated_after_cancel", maxSeen)
+}
+
+// c09StraightLine: long scripts without a single backward jump - thousands of statements
+// one after the other (built-in calls, ranges, patterns, hashes, forward-jumping if /
+// ternary / switch), at top level, as the body of a function, and three calls deep. A
+// live context lets them finish; cancelled at instruction K, long before the end, they
+// must stop: at most a few further instructions and an error, not the script's result.
+func c09StraightLine(c *ev.Ctx) {
+	stmts := []string{
+		`a%d = %d + len("abc");`, `s = upper("abc") + lower("DEF") + string(%d + %d);`, `r = 1..40; k = %d - %d;`,
+		`m = match("item-%d", /^item-[0-9]+$/) && %d >= 0;`, `h = {"k": %d, "j": [1, 2, %d]};`, `q = sort([3, %d, 2, %d]);`,
+		`tern = C ? %d : 0 - %d;`, `if (C) { z = %d; } else { z = 0 - %d; }`, `switch (%d) { case 1 { y = 1; } case %d { y = 3; } default { y = 2; } }`,
+		`w = replace("x%dy", /[0-9]+/, "-") + string(%d %% 7);`,
+	}
+	var body strings.Builder
+	for i := 0; i < 1900; i++ {
+		body.WriteString(fmt.Sprintf(stmts[i%len(stmts)], i, i))
+		body.WriteString(" ")
+	}
+	shapes := []struct{ name, script string }{
+		{"top-level", body.String() + "return 7;"},
+		{"function-body", "function big() { " + body.String() + "return 7; } return big();"},
+		{"three-calls-deep", "function big() { " + body.String() + "return 7; } function mid() { x = big(); return x; } function outer() { return mid(); } return outer();"},
+	}
+	for _, sh := range shapes {
+		for _, noOpt := range []bool{false, true} {
+			// live context: the script finishes, and tells how long it is
+			live, cancelLive := context.WithTimeout(context.Background(), time.Hour)
+			ref, err := eng.New(sh.script, eng.Options{Ctx: live, NoOptimize: noOpt})
+			id0 := fmt.Sprintf("straight-line/%s/%v/live", sh.name, noOpt)
+			if err != nil {
+				cancelLive()
+				c.Violation(id0, "prepare", map[string]interface{}{"summary": "Prepare failed: " + err.Error(), "script": sh.script[:300]})
+				continue
+			}
+			o := ref.Exec(map[string]interface{}{"C": true})
+			cancelLive()
+			total := o.Steps
+			if c.Want(id0) {
+				c.Case(id0, true)
+				if o.Desc() != "INTEGER:7" || total < 8000 {
+					c.Violation(id0, "straight-line script under a live context", map[string]interface{}{"summary": fmt.Sprintf("%s: a long script without loops gave %s %s after %d instructions under a context that is still live (INTEGER:7 expected)", sh.name, o.Desc(), errText(o.Err), total), "script": sh.script[:300]})
+					continue
+				}
+			}
+			ks := []int64{0, 1, 2, 5, 100, 1000, total / 2, total - 2000}
+			for e := 0; e < c.Pick(3, 40); e++ {
+				ks = append(ks, int64(c.Rng("straight-k/"+sh.name, e).Intn(int(total-2000))))
+			}
+			for _, k := range ks {
+				for _, run := range []bool{false, true} {
+					id := fmt.Sprintf("straight-line/%s/%v/%d/%v", sh.name, noOpt, k, run)
+					if !c.Want(id) {
+						continue
+					}
+					ctx, cancel := context.WithCancel(context.Background())
+					evr, err := eng.New(sh.script, eng.Options{Ctx: ctx, NoOptimize: noOpt})
+					if err != nil {
+						cancel()
+						continue
+					}
+					cancelled := int64(-1)
+					var stepsAfter int64
+					evr.OnStep = func(m *vm.VM, ip int, op code.Opcode) error {
+						if cancelled >= 0 {
+							stepsAfter++
+						}
+						if cancelled < 0 && evr.Steps() > k {
+							cancelled = evr.Steps()
+							cancel()
+						}
+						return nil
+					}
+					obj := map[string]interface{}{"C": true}
+					var callErr error
+					var panicked bool
+					if run {
+						_, callErr, panicked, _ = evr.RunBool(obj)
+					} else {
+						ob := evr.Exec(obj)
+						callErr, panicked = ob.Err, ob.Panicked
+					}
+					cancel()
+					c.Case(id, true)
+					c.Count("instructions_after_cancel_total", int(stepsAfter))
+					if cancelled < 0 || panicked || callErr == nil || stepsAfter > 64 {
+						c.Violation(id, "straight-line script not stopped: "+sh.name, map[string]interface{}{
+							"summary": fmt.Sprintf("%s (%s, noopt=%v): a script of %d instructions without a backward jump, context cancelled at instruction %d: %d further instructions were dispatched, err=%v panic=%v (an error after at most a few instructions expected)", sh.name, apiName(run), noOpt, total, cancelled, stepsAfter, callErr, panicked),
+							"script":  sh.script[:300] + " ..."})
+					}
+				}
+			}
+		}
+	}
 }
